@@ -186,12 +186,12 @@ theorem carry_xbin (p : Pic) (name : List Nat) (hl : Nat) (hw : p.w < 65536) (hh
   · rw [show SauceKind.xbin.idx = 8 from rfl, h2]; simp only [bufInfo]; simp; omega
 
 theorem carry_tundra (p : Pic) (name : List Nat) (hl : Nat) (hw : p.w < 65536) :
-    (Sauce.carry SauceKind.tundra.idx (bufInfo p name) hl).width = p.w ∧ (Sauce.carry SauceKind.tundra.idx (bufInfo p name) hl).height = 0 ∧
+    (Sauce.carry SauceKind.tundra.idx (bufInfo p name) hl).width = p.w ∧ (Sauce.carry SauceKind.tundra.idx (bufInfo p name) hl).height = p.h % 65536 ∧
     (Sauce.carry SauceKind.tundra.idx (bufInfo p name) hl).ice = false ∧ (Sauce.carry SauceKind.tundra.idx (bufInfo p name) hl).font = none := by
   obtain ⟨h1, h2, h3, _, _, h6, _⟩ := IcyVerif.C11.carry_plain 6 (by decide) (bufInfo p name) hl
   refine ⟨?_, ?_, h3, h6⟩
   · rw [show SauceKind.tundra.idx = 6 from rfl, h1]; simp only [bufInfo]; omega
-  · rw [show SauceKind.tundra.idx = 6 from rfl, h2]; simp
+  · rw [show SauceKind.tundra.idx = 6 from rfl, h2]; simp only [bufInfo]
 
 theorem carry_ansi (p : Pic) (name : List Nat) (hl : Nat) (hw : p.w < 65536) (hh : p.h < 65536) :
     (Sauce.carry SauceKind.ansi.idx (bufInfo p name) hl).width = p.w ∧ (Sauce.carry SauceKind.ansi.idx (bufInfo p name) hl).height = p.h ∧
